@@ -101,7 +101,22 @@ def check_files(doc, text, case):
                 d_load = W.m2d().transform(W.parser().load(f))
     except Exception as e:
         return [Discrepancy(f"load:{type(e).__name__}", f"a front end failed on a valid document: {type(e).__name__}: {e!s:.120}", case)]
-    for name, dd in (("open", d_open), ("load", d_load)):
+    extra = []
+    try:
+        # file objects whose .name is not a path (os.fdopen, tempfile.TemporaryFile: the name is the descriptor number);
+        # the public default expand_includes=True whenever the text has no INCLUDE line
+        exp = not env.has_include_line(text)
+        pr = W.parser(False, exp)
+        with os.fdopen(os.open(p, os.O_RDONLY), encoding="utf-8") as f:
+            extra.append(("load(os.fdopen)", W.m2d().transform(pr.load(f))))
+        with tempfile.TemporaryFile("w+", encoding="utf-8", newline="") as f:
+            f.write(text)
+            f.seek(0)
+            extra.append(("load(TemporaryFile)", W.m2d().transform(pr.load(f))))
+        extra.append(("load(StringIO)", W.m2d().transform(pr.load(io.StringIO(text)))))
+    except Exception as e:
+        return [Discrepancy(f"load_fileobject:{type(e).__name__}", f"load() failed on a file object that has no path for a name: {type(e).__name__}: {e!s:.120}", case)]
+    for name, dd in [("open", d_open), ("load", d_load)] + extra:
         diffs = refdict.equal_dicts(d_loads, dd)
         if diffs:
             out.append(Discrepancy(f"front_end:{name}", f"{name}() differs from loads() at {diffs[0][0]}: {diffs[0][1]}", case))
